@@ -488,3 +488,44 @@ def expand_properties(cls: ClassInfo, e: ast.AST, self_name: str = 'self', depth
     for _ in range(depth):
         out = X().visit(out)
     return out
+
+
+def path_conditions(stmt: ast.AST) -> List[Tuple[ast.AST, bool]]:
+    """Conditions under which a statement executes, read off the structure in either style: (test, True/False) for every
+    enclosing if/while arm, and (test, False) for every earlier guard clause of an enclosing block -- an `if test:` without
+    else whose body ends in continue / return / raise / break.  `if a != b: continue; S` and `if a == b: S` give S the same
+    condition (compare with bool_relation)."""
+    from .model import parent as _parent
+    out: List[Tuple[ast.AST, bool]] = []
+    cur = stmt
+    while cur is not None and not isinstance(cur, (ast.FunctionDef, ast.AsyncFunctionDef, ast.Lambda, ast.Module)):
+        par = _parent(cur)
+        if par is None:
+            break
+        for field in ('body', 'orelse', 'finalbody'):
+            blk = getattr(par, field, None)
+            if isinstance(blk, list) and cur in blk:
+                if isinstance(par, (ast.If, ast.While)) and field in ('body', 'orelse'):
+                    out.append((par.test, field == 'body'))
+                for prev in blk[:blk.index(cur)]:
+                    if isinstance(prev, ast.If) and not prev.orelse and prev.body and \
+                            isinstance(prev.body[-1], (ast.Continue, ast.Return, ast.Raise, ast.Break)):
+                        out.append((prev.test, False))
+                break
+        cur = par
+    return out
+
+
+def runs_only_if(stmt: ast.AST, want: ast.AST) -> bool:
+    """Does one of the statement's path conditions say `want` (up to negation-with-opposite-polarity)?"""
+    for test, pol in path_conditions(stmt):
+        # conjunctions: each conjunct of a positive test holds
+        parts = list(test.values) if (pol and isinstance(test, ast.BoolOp) and isinstance(test.op, ast.And)) else [test]
+        # a failed disjunction: each disjunct is false
+        if not pol and isinstance(test, ast.BoolOp) and isinstance(test.op, ast.Or):
+            parts = list(test.values)
+        for t in parts:
+            rel = bool_relation(t, want)
+            if (rel == 'same' and pol) or (rel == 'negated' and not pol):
+                return True
+    return False
